@@ -11,7 +11,7 @@
      1334 a window update was emitted by an endpoint whose model forbids it (stream finished there)
    Judged: one tunnel, flow control (frames are processed as soon as handed over), real endpoints,
    RPCs without deadline; an RPC stops being judged when the trace leaves what the model covers
-   (tunnel-level events, refused starts, Invoke). *)
+   (tunnel-level events other than graceful shutdown, failed sends). *)
 From Coq Require Import List NArith ZArith Bool.
 From GT Require Import Trace MonWire MonApp Rpc.
 Import ListNotations.
@@ -102,6 +102,11 @@ Fixpoint norm_s (l : list sframe) : list sframe :=
 Fixpoint list_eqb {A} (eqb : A -> A -> bool) (a b : list A) : bool :=
   match a, b with [], [] => true | x :: a', y :: b' => eqb x y && list_eqb eqb a' b' | _, _ => false end.
 
+(* the send of rpc r was logged in the same action as its start: the RPC is made through Invoke *)
+Definition is_invoke (tr : trace) (act : N) (r : N) : bool :=
+  existsb (fun x => match x with (a, Call (Cw r') ONew _ _ _ _ _) => N.eqb a act && N.eqb r r' | _ => false end) tr &&
+  existsb (fun x => match x with (a, Call (Cw r') OSend _ _ _ _ _) => N.eqb a act && N.eqb r r' | _ => false end) tr.
+
 Definition rr_step (tr : trace) (st : rrs) (e : N * ev) : rrs :=
   if rr_off st then st else
   let '(act, e) := e in
@@ -112,11 +117,13 @@ Definition rr_step (tr : trace) (st : rrs) (e : N * ev) : rrs :=
       else (* not replayed, but it exists: the table sizes are then not compared *)
            mkRrs (rr_m st) (rr_ids st) (rr_q st) (rr_oc st) (rr_os st) (lset r sh (rr_sh st)) false (rr_fails st)
   | Ret (Cw r) ONew res _ _ _ _ _ _ _ =>
-      if res_is_ok res then on_rpc st r [LK CNew] else drop_rpc st r
+      if res_is_ok res then
+        (* Invoke performs newStream, SendMsg and CloseSend in one go (its send is logged in the same action
+           as its start, its half-close is not logged) *)
+        if is_invoke tr act r then on_rpc st r [LK CNew; LK CSend; LK CHalf] else on_rpc st r [LK CNew]
+      else drop_rpc st r
   | Call (Cw r) OSend _ _ _ _ _ =>
-      (* Invoke performs new, send and half-close in one go and logs no half-close: not replayed *)
-      if existsb (fun x => match x with (a, Call (Cw r') ONew _ _ _ _ _) => N.eqb a act && N.eqb r r' | _ => false end) tr
-      then drop_rpc st r else on_rpc st r [LK CSend]
+      if is_invoke tr act r then st else on_rpc st r [LK CSend]
   | Ret (Cw r) OSend res _ _ _ _ _ _ _ | Ret (Hw r) OSend res _ _ _ _ _ _ _ =>
       (* a send that fails (a message that cannot be encoded, a stream that ended meanwhile, a refused
          second message) may or may not have put frames on the wire: the RPC leaves the replay *)
@@ -190,7 +197,8 @@ Definition rr_step (tr : trace) (st : rrs) (e : N * ev) : rrs :=
                   match k with
                   | KNew _ _ _ _ _ =>
                       if existsb (fun x => match x with (a, HStart r' _ _ _ _ _ _) => N.eqb a act && N.eqb r r' | _ => false end) tr
-                      then on_rpc st r [LVLoop LNormal] else drop_rpc st r
+                      then on_rpc st r [LVLoop LNormal]
+                      else on_rpc st r [LVLoop LReject]     (* no handler started: the server refuses the stream *)
                   | _ =>
                       (* a message travels as several data frames, the model's CSend emits one: a data frame
                          that finds no data frame at the head of the model's queue is a continuation *)
@@ -207,7 +215,7 @@ Definition rr_step (tr : trace) (st : rrs) (e : N * ev) : rrs :=
               end
           end
       end
-  | Stim StOpen _ _ _ => st
+  | Stim StOpen _ _ _ | Stim StShutdown _ _ _ => st     (* graceful shutdown only turns starts into refusals *)
   | Stim _ _ _ _ | Teardown | Panic =>
       (* once the tunnel itself is disturbed, frames of goroutines that are still running may or may not
          reach the carrier: the replay stops (the channel's end is covered by mon_C04 and RpcEnd.v) *)
